@@ -12,6 +12,7 @@ import (
 
 	"verif/sim/core"
 	"verif/sim/parties"
+	"verif/sim/ref"
 )
 
 // C10 - SCTE-35 state tracker under a discrete-event simulation:
@@ -84,7 +85,7 @@ func (c10) Info() core.Info {
 	return core.Info{
 		Runs: map[string]int{"quick": 200000, "thorough": 15000000},
 		Rule: "Each run is a discrete-event simulation on a 90 kHz clock: an encoder emits splice_info_sections (time_signal / splice_null, 1-3 segmentation descriptors, built with the real creation API) from either a generated 'broadcast day' (nested program/chapter/break/ad/placement-opportunity segments, breakaway/resumption, early termination, overlap, unscheduled events with stream-switch ids, network signals, optionally crossing the 2^33 PTS wrap) or an adversarial alphabet (14 types x 3 event ids x 4 times); a scripted channel drops, duplicates (immediately, with the same object, or beyond the 10-entry duplicate ring) and reorders deliveries; in half of the runs each section travels as scripted transport packets through the real accumulator and decoder; every accepted descriptor with a duration arms a timer that calls Close at pts+duration+jitter (early, late, twice, after it was closed); explicit and unknown Closes are interleaved. An invariant monitor using only public results is evaluated after every call. A 'deep' workload holds 5..257 descriptors open under a breakaway; explicit closes also use near-copies of delivered descriptors (signal time + 2^k, event-id bit, segment number, type); stream-switch pairs also carry first UPIDs other than 'BLACKOUT:<id>'; the allocation of every ProcessDescriptor call is measured (a call that allocates >64 MiB is on its way to taking the process down). Plus a complete sweep of all call histories of length <=4 over a 9-letter alphabet. Non-trivial = at least one reach probe fired.",
-		Real: []string{"scte35.NewState", "state.ProcessDescriptor/Close/Open", "segmentationDescriptor.CanClose/Equal (trusted as the closing rules)", "scte35 creation API + UpdateData", "scte35.NewSCTE35", "scte35.SCTE35AccumulatorDoneFunc", "packet.Accumulator"},
+		Real: []string{"scte35.NewState", "state.ProcessDescriptor/Close/Open", "segmentationDescriptor getters (the closing rules and equality themselves are the harness's transcription, ref/closing.go)", "scte35 creation API + UpdateData", "scte35.NewSCTE35", "scte35.SCTE35AccumulatorDoneFunc", "packet.Accumulator"},
 		Stub: []string{"encoder workload", "packetiser", "signal channel (drop/dup/late dup/reorder)", "simulated clock + event heap + duration timers", "caller issuing explicit closes"},
 		Assumptions: []string{
 			"CanClose/Equal are taken as the closing rules (their table is C19's subject)",
@@ -125,6 +126,9 @@ func c10GenAdversarial(r *core.Rand) *C10Script {
 			if d.Type >= 0x34 && d.Type <= 0x37 {
 				d.SegExp = r.Pick(0, 1, 2)
 				d.SegNum = r.Range(0, d.SegExp)
+				if r.Chance(1, 4) {
+					d.SegNum = r.Pick(0, 1, 2, 255) // also segment numbers beyond / without an expected count
+				}
 				if (d.Type == 0x34 || d.Type == 0x36) && r.Chance(1, 3) {
 					d.Sub, d.SubExp = true, r.Pick(1, 2)
 					d.SubNum = r.Range(1, d.SubExp)
@@ -166,7 +170,7 @@ func c10Near(r *core.Rand) string {
 	case 2, 3:
 		return fmt.Sprintf("event:%d", r.Pick(0, 7, 8, 15, 16, 24, 31))
 	case 4:
-		return "seg"
+		return r.PickS("seg", "sub")
 	}
 	return "type"
 }
@@ -604,6 +608,16 @@ func c10Build(sg C10Signal, base int64) (scte35.SCTE35, []scte35.SegmentationDes
 	return sc, ds
 }
 
+// c10Facts reads what the closing relation and equality look at through the public getters.
+func c10Facts(d scte35.SegmentationDescriptor) ref.SegFacts {
+	f := ref.SegFacts{Type: int(d.TypeID()), Event: d.EventID(), SegNum: int(d.SegmentNumber()), SegExp: int(d.SegmentsExpected()),
+		HasSub: d.HasSubSegments(), SubNum: int(d.SubSegmentNumber()), SubExp: int(d.SubSegmentsExpected())}
+	if sc := d.SCTE35(); sc != nil {
+		f.HasPTS, f.PTS = sc.HasPTS(), uint64(sc.PTS())
+	}
+	return f
+}
+
 type c10Event struct {
 	at   int64
 	seq  int
@@ -930,17 +944,23 @@ func (c10) Exec(script interface{}, c *core.Ctx) {
 				return false
 			}
 			okRule := false
-			if !c.Call("CanClose/Equal", func() {
-				if explicit {
-					okRule = incoming.Equal(x)
-				} else {
-					okRule = incoming.CanClose(x)
-				}
-			}) {
+			var fi, fx ref.SegFacts
+			if !c.Call("descriptor getters", func() { fi, fx = c10Facts(incoming), c10Facts(x) }) {
 				return false
 			}
+			// the closing rules and equality as documented (ref/closing.go), not as the tracker's
+			// own CanClose / Equal happen to answer
+			if explicit {
+				okRule = ref.SegEqual(fi, fx)
+			} else {
+				okRule = ref.CanClose(fi, fx)
+			}
 			if !okRule {
-				c.Fail("closed_by_rule", "closed_against_closing_rules", sdName(incoming)+" closed "+sdName(x), "closable")
+				what := "closed_against_closing_rules"
+				if explicit {
+					what = "explicit_close_removed_a_descriptor_that_is_not_equal"
+				}
+				c.Fail("closed_by_rule", what, sdName(incoming)+" closed "+sdName(x), "closable / equal under the documented rules")
 				return false
 			}
 			if in.seq > last {
@@ -1235,6 +1255,13 @@ func (c10) Exec(script interface{}, c *core.Ctx) {
 				sg.Descs[stp.Desc].Event ^= 1 << uint(k&31)
 			case stp.Near == "seg":
 				sg.Descs[stp.Desc].SegNum ^= 1
+			case stp.Near == "sub":
+				// the same descriptor with / without (zero-valued) sub-segment fields
+				d := &sg.Descs[stp.Desc]
+				if d.Type != 0x34 && d.Type != 0x36 {
+					d.Type = 0x34
+				}
+				d.Sub = !d.Sub
 			default:
 				sg.Descs[stp.Desc].Type ^= 1
 			}
